@@ -371,6 +371,17 @@ def _without_annotations(tree):
                 node.args.kwarg.annotation = None
             return node
         visit_AsyncFunctionDef = visit_FunctionDef
+
+        def visit_Compare(self, node):
+            # ``<literal> == x`` is ``x == <literal>`` (also !=, is, is not; the order comparisons mirrored): one operand order
+            self.generic_visit(node)
+            mirror = {ast.Eq: ast.Eq, ast.NotEq: ast.NotEq, ast.Is: ast.Is, ast.IsNot: ast.IsNot, ast.Lt: ast.Gt, ast.Gt: ast.Lt,
+                      ast.LtE: ast.GtE, ast.GtE: ast.LtE}
+            if len(node.ops) == 1 and type(node.ops[0]) in mirror and isinstance(node.left, ast.Constant) \
+                    and not isinstance(node.comparators[0], ast.Constant):
+                return ast.copy_location(ast.Compare(left=node.comparators[0], ops=[mirror[type(node.ops[0])]()],
+                                                     comparators=[node.left]), node)
+            return node
     tree = Strip().visit(tree)
     ast.fix_missing_locations(tree)
     return tree
@@ -813,8 +824,10 @@ class Model(object):
             return ("func", FuncRef(module, None, module.functions[head]))
         if head in module.assigns and len(parts) == 1:
             return ("const", head, module)
-        if head in module.imports:
-            target = module.imports[head].split(".") + parts[1:]
+        if head in module.imports or (head == "productmd" and len(parts) > 2 and parts[1] in self.modules):
+            # (a full dotted path into the package names the same object whether or not this module imports it that way: terms
+            # carry the pinned spelling of a name, known_imports)
+            target = (module.imports[head].split(".") if head in module.imports else [head]) + parts[1:]
             # try longest module prefix
             for i in range(len(target), 0, -1):
                 m = self.resolve_module_path(".".join(target[:i]))
